@@ -146,10 +146,19 @@ func genC06(tier string) []*batch.Case {
 				tmp := &Ter{Op: "slice", A: l, B: zl(1), C: n, T: lt}
 				return seq(c06BuildList(l, el, n, p), c06PrintElem(&Bin{Op: "index", L: tmp, R: i, T: el.t}))
 			})
-			add("list-rvalue-unused:"+sfx, "rvalue index whose result is never used", 1, byteIdx, structs, nil, nil, func(p string, n, i, j *Var) []Stmt {
-				l := vr(p+"_l", lt)
-				return seq(c06BuildList(l, el, n, p), one(&VarDecl{Name: p + "_unbenutzt", T: el.t, Init: &Bin{Op: "index", L: l, R: i, T: el.t}}), one(prs("danach\n")))
-			})
+			{
+				// the indexed value lands in a LOCAL variable that is never read: nothing but the run-time error depends on the access
+				it := Zahl
+				if byteIdx {
+					it = Byte
+				}
+				pruefe := &Func{Name: "pruefe_liste", Params: []Param{{Name: "w", T: lt}, {Name: "k", T: it}}, Ret: Void,
+					Body: seq(one(&VarDecl{Name: "unbenutzt", T: el.t, Init: &Bin{Op: "index", L: vr("w", lt), R: vr("k", it), T: el.t}}), one(prs("geprueft\n")))}
+				add("list-rvalue-unused:"+sfx, "rvalue index whose result is never used", 1, byteIdx, structs, nil, []*Func{pruefe}, func(p string, n, i, j *Var) []Stmt {
+					l := vr(p+"_l", lt)
+					return seq(c06BuildList(l, el, n, p), one(&ExprStmt{X: &Call{F: pruefe, Args: []Expr{l, i}}}), one(prs("danach\n")))
+				})
+			}
 			add("list-assign:"+sfx, "assignment to a list element", 1, byteIdx, structs, nil, nil, func(p string, n, i, j *Var) []Stmt {
 				l := vr(p+"_l", lt)
 				return seq(c06BuildList(l, el, n, p), one(&Assign{Target: &Bin{Op: "index", L: l, R: i, T: el.t}, Val: el.repl}), c06Dump(p, l))
@@ -208,10 +217,18 @@ func genC06(tier string) []*batch.Case {
 			t := vr(p+"_t", Text)
 			return seq(c06BuildText(t, n, p), pr(&Bin{Op: "index", L: t, R: i, T: Char}))
 		})
-		add("text-rvalue-unused:"+sfx, "t an der Stelle i, result never used", 1, byteIdx, nil, nil, nil, func(p string, n, i, j *Var) []Stmt {
-			t := vr(p+"_t", Text)
-			return seq(c06BuildText(t, n, p), one(&VarDecl{Name: p + "_unbenutzt", T: Char, Init: &Bin{Op: "index", L: t, R: i, T: Char}}), one(prs("danach\n")))
-		})
+		{
+			it := Zahl
+			if byteIdx {
+				it = Byte
+			}
+			pruefe := &Func{Name: "pruefe_text", Params: []Param{{Name: "w", T: Text}, {Name: "k", T: it}}, Ret: Void,
+				Body: seq(one(&VarDecl{Name: "unbenutzt", T: Char, Init: &Bin{Op: "index", L: vr("w", Text), R: vr("k", it), T: Char}}), one(prs("geprueft\n")))}
+			add("text-rvalue-unused:"+sfx, "t an der Stelle i in a local that is never read", 1, byteIdx, nil, nil, []*Func{pruefe}, func(p string, n, i, j *Var) []Stmt {
+				t := vr(p+"_t", Text)
+				return seq(c06BuildText(t, n, p), one(&ExprStmt{X: &Call{F: pruefe, Args: []Expr{t, i}}}), one(prs("danach\n")))
+			})
+		}
 		add("text-rvalue-temp:"+sfx, "(t verkettet mit \"\") an der Stelle i", 1, byteIdx, nil, nil, nil, func(p string, n, i, j *Var) []Stmt {
 			t := vr(p+"_t", Text)
 			return seq(c06BuildText(t, n, p), pr(&Bin{Op: "index", L: &Bin{Op: "verkettet", L: t, R: tl(""), T: Text}, R: i, T: Char}))
